@@ -23,7 +23,7 @@ fn words(inp: &[u8], off: usize) -> [u16; 4] {
     [take_u16(inp, off), take_u16(inp, off + 2), take_u16(inp, off + 4), take_u16(inp, off + 6)]
 }
 
-//@ harness name=rc2_leaf_mix_inv prop=C01,C20 tier=quick bits=1092 est=30 desc="L: on arbitrary round keys, all word states r, all quarters m in 0..16: mix(r, j=4m) leaves j = 4m+4 and reverse_mix(., j=4m+3) restores r leaving j = 4m-1 (wrapping); conversely mix(reverse_mix(r, 4m+3), 4m) == r; key indices in range"
+//@ harness name=rc2_leaf_mix_inv prop=C01,C20 tier=quick bits=1092 est=45 desc="L: on arbitrary round keys, all word states r, all quarters m in 0..16: mix(r, j=4m) leaves j = 4m+4 and reverse_mix(., j=4m+3) restores r leaving j = 4m-1 (wrapping); conversely mix(reverse_mix(r, 4m+3), 4m) == r; key indices in range"
 verif_harness! {
     name: rc2_leaf_mix_inv,
     bytes: 137,
@@ -53,7 +53,7 @@ verif_harness! {
     }
 }
 
-//@ harness name=rc2_leaf_mash_inv prop=C01,C20 tier=quick bits=1088 est=10 desc="L: on arbitrary round keys and all word states r: reverse_mash(mash(r)) == r and mash(reverse_mash(r)) == r; key indices (r & 63) in range"
+//@ harness name=rc2_leaf_mash_inv prop=C01,C20 tier=quick bits=1088 est=15 desc="L: on arbitrary round keys and all word states r: reverse_mash(mash(r)) == r and mash(reverse_mash(r)) == r; key indices (r & 63) in range"
 verif_harness! {
     name: rc2_leaf_mash_inv,
     bytes: 136,
@@ -127,7 +127,7 @@ pub fn stub_reverse_mash(_c: &Rc2, r: &mut [u16; 4]) {
     unpack(a, r);
 }
 
-//@ harness name=rc2_roundtrip_w_ed prop=C01 tier=quick bits=64 stub=1 est=20 desc="W: decrypt_block(encrypt_block(b)) == b for all blocks on any round-key state: real block load/store and round sequencing (16 mix quarters with mash after the 5th and 11th; mirrored for decryption), mix/reverse_mix and mash/reverse_mash uninterpreted mutually inverse bijections (rc2_leaf_mix_inv, rc2_leaf_mash_inv)"
+//@ harness name=rc2_roundtrip_w_ed prop=C01 tier=quick bits=64 stub=1 est=30 desc="W: decrypt_block(encrypt_block(b)) == b for all blocks on any round-key state: real block load/store and round sequencing (16 mix quarters with mash after the 5th and 11th; mirrored for decryption), mix/reverse_mix and mash/reverse_mash uninterpreted mutually inverse bijections (rc2_leaf_mix_inv, rc2_leaf_mash_inv)"
 verif_harness! {
     name: rc2_roundtrip_w_ed,
     bytes: 136,
@@ -143,7 +143,7 @@ verif_harness! {
     }
 }
 
-//@ harness name=rc2_roundtrip_w_de prop=C01 tier=quick bits=64 stub=1 est=20 desc="W: encrypt_block(decrypt_block(b)) == b for all blocks on any round-key state; leaves uninterpreted mutually inverse bijections as in rc2_roundtrip_w_ed"
+//@ harness name=rc2_roundtrip_w_de prop=C01 tier=quick bits=64 stub=1 est=30 desc="W: encrypt_block(decrypt_block(b)) == b for all blocks on any round-key state; leaves uninterpreted mutually inverse bijections as in rc2_roundtrip_w_ed"
 verif_harness! {
     name: rc2_roundtrip_w_de,
     bytes: 136,
